@@ -140,3 +140,47 @@ func VH_C04_binaryUntyped_lss() { vhUntypedCompare(token.LSS) }
 func VH_C04_binaryUntyped_leq() { vhUntypedCompare(token.LEQ) }
 func VH_C04_binaryUntyped_gtr() { vhUntypedCompare(token.GTR) }
 func VH_C04_binaryUntyped_geq() { vhUntypedCompare(token.GEQ) }
+
+// untyped constant shifts: x << y, x >> y for an integer or rune constant x and an integer constant count y
+func vhUntypedShift(op token.Token) {
+	c := vhUntypedComp()
+	x, y, xc, yc, _ := vhUntypedOperands(c)
+	var e *Expr
+	failed := false
+	func() {
+		defer func() {
+			if recover() != nil {
+				failed = true
+			}
+		}()
+		e = c.BinaryExprUntyped(&ast.BinaryExpr{Op: op}, x, y)
+	}()
+	count, fits := constant.Uint64Val(yc)
+	vhAssume(!fits || count < 4096) // bound: larger counts are outside the claim (and would not be replayable natively)
+	vhAssert(failed == !fits, "rejected exactly when the count is negative or does not fit the shift count type")
+	if failed || !fits {
+		vhReach("end")
+		return
+	}
+	wantOp := op
+	switch op {
+	case token.SHL_ASSIGN:
+		wantOp = token.SHL
+	case token.SHR_ASSIGN:
+		wantOp = token.SHR
+	}
+	want := constant.Shift(xc, wantOp, uint(count))
+	z, ok := e.Value.(UntypedLit)
+	vhAssert(ok, "the result is an untyped constant")
+	if !ok {
+		return
+	}
+	vhAssert(z.Kind == x.Kind, "a shift keeps the untyped kind of its left operand")
+	vhAssert(vhConstKind(z.Val) == int(constant.Int) && constant.Compare(z.Val, token.EQL, want), "value: the left operand shifted by the count in the operator's direction")
+	vhReach("end")
+}
+
+func VH_C04_binaryUntyped_shl()       { vhUntypedShift(token.SHL) }
+func VH_C04_binaryUntyped_shr()       { vhUntypedShift(token.SHR) }
+func VH_C04_binaryUntyped_shlAssign() { vhUntypedShift(token.SHL_ASSIGN) }
+func VH_C04_binaryUntyped_shrAssign() { vhUntypedShift(token.SHR_ASSIGN) }
